@@ -477,6 +477,38 @@ fn run_region(t: &mut Tape, cx: &mut Cx) -> Result<(), String> {
     let mem = build_mmap(&lay)?;
     note!(cx, "root: guest memory {}", lay.describe());
     cx.label("region_root");
+    region_body(&mem, &lay, t, cx)
+}
+
+/// xen build: the same over emulated foreign / advance-mapped grant regions (stable host
+/// pointers, mapping length rounded up to pages) and Unix regions.
+#[cfg(feature = "xen")]
+fn run_region_xen(t: &mut Tape, cx: &mut Cx) -> Result<(), String> {
+    use crate::xen_emul::{build as xbuild, reset, Kind as XKind};
+    reset();
+    let n = 1 + t.idx(2);
+    let mut regs = Vec::new();
+    let mut lay = Layout { regs: vec![] };
+    for i in 0..n {
+        let kind = t.pick(&[XKind::Foreign, XKind::GrantAdvance, XKind::GrantAdvance, XKind::UnixFile, XKind::UnixAnon]);
+        let size = t.pick(&[1usize, 100, 4096, 4097, 8191, 8192]);
+        let base = 0x10000u64 * (i as u64 + 1);
+        let xr = xbuild::<()>(kind, base, size)?;
+        note!(cx, "{:?} region {:#x}+{:#x}", kind, base, size);
+        lay.regs.push((base, size as u64));
+        regs.push(std::sync::Arc::new(xr.region));
+    }
+    let mem = vm_memory::GuestMemoryMmap::from_arc_regions(regs).map_err(|e| format!("{:?}", e))?;
+    cx.nt("xen_region_root");
+    region_body(&mem, &lay, t, cx)
+}
+
+#[cfg(not(feature = "xen"))]
+fn run_region_xen(_t: &mut Tape, _cx: &mut Cx) -> Result<(), String> {
+    Ok(())
+}
+
+fn region_body(mem: &vm_memory::GuestMemoryMmap<()>, lay: &Layout, t: &mut Tape, cx: &mut Cx) -> Result<(), String> {
     let pts = lay.points();
     for _ in 0..(1 + t.idx(3)) {
         let ri = t.idx(lay.regs.len());
@@ -575,6 +607,7 @@ pub fn property() -> Property {
             SubCheck { name: "framed", builds: &[Build::Std, Build::Plain], kind: Kind::Random { quick: 60_000, thorough: 3_000_000, max_words: 64 }, run: run_framed },
             SubCheck { name: "guard_page", builds: &[Build::Std, Build::Plain], kind: Kind::Random { quick: 20_000, thorough: 1_000_000, max_words: 64 }, run: run_guard },
             SubCheck { name: "region", builds: &[Build::Std, Build::Xen], kind: Kind::Random { quick: 10_000, thorough: 400_000, max_words: 96 }, run: run_region },
+            SubCheck { name: "xen_region", builds: &[Build::Xen], kind: Kind::Random { quick: 4_000, thorough: 200_000, max_words: 96 }, run: run_region_xen },
         ],
     }
 }
